@@ -632,7 +632,12 @@ Qed.
     the full stabilizer group (computed by exhaustive enumeration) *)
 Definition brute_success_ok (c : code) : bool :=
   let grp := group_of (stabs c) in
-  forallb (fun e => Bool.eqb (is_success c e) (memb e grp)) (all_ops (nq c)).
+  if Nat.leb (nq c) 6 then forallb (fun e => Bool.eqb (is_success c e) (memb e grp)) (all_ops (nq c))
+  else
+    (* larger n: every element of the group is reported successful, and the number of operators reported
+       successful among all 4^n is the order 2^(n-k) of the group *)
+    forallb (is_success c) grp
+    && Nat.eqb (length (filter (is_success c) (all_ops (nq c)))) (2 ^ (nq c - length (lgx c))).
 Definition success_set (c : code) : list bsf := filter (is_success c) (all_ops (nq c)).
 
 (** ** correspondence records (what the implementation reported for a residual error) *)
